@@ -40,15 +40,24 @@ def _single_def(fi: FunctionInfo, name: str) -> Optional[ast.AST]:
     return defs[0].value if len(defs) == 1 and len(astq.assignments_to(fi.node, name)) == 1 else None
 
 
-def check_topo(prog: Program, res: Result) -> None:
-    fi = prog.func(f"{PG}:toposort_edges")
+def astq_stmt(n):
+    return enclosing_stmt(n)
+
+
+def check_topo(prog: Program, res: Result, fi=None, R: str = "C17-topo", direct: Optional[str] = None, result: Optional[ast.AST] = None) -> None:
+    """`direct`/`result`: the traversal sits (after helper absorption) in another function, reads the edge list `direct`
+    (e.g. self.edge_inds) as it is, and its result is the expression `result` instead of the returned value."""
+    if fi is None:
+        fi = prog.func(f"{PG}:toposort_edges")
     res.touch(fi)
-    R = "C17-topo"
-    rets = [n for n in walk_function(fi.node) if isinstance(n, ast.Return) and n.value is not None]
+
+    class _R:  # uniform access to "the result expression"
+        value = result
+    rets = [n for n in walk_function(fi.node) if isinstance(n, ast.Return) and n.value is not None] if result is None else [_R]
     if len(rets) != 1:
         res.inconclusive(f"{fi.qualname}: {len(rets)} returns")
         return
-    param = fi.params[0]
+    param = fi.params[0] if direct is None else direct
     calls = {id(c): q for c, q in prog.calls_in(fi)}
     trav = [c for c, q in prog.calls_in(fi) if q in TRAVERSALS]
     if not trav:
@@ -73,9 +82,11 @@ def check_topo(prog: Program, res: Result) -> None:
     edges_name = None
     if is_dg and gdef.args and isinstance(gdef.args[0], ast.Name):
         edges_name = gdef.args[0].id
+    if is_dg and gdef.args and direct is not None and norm(gdef.args[0]) == direct:
+        edges_name = direct
     res.ob(R, edges_name is not None and len(gdef.args) == 1 and not gdef.keywords if is_dg else False, fi.qualname,
            "graph holds exactly the edge list", "the DiGraph is not built from the complete edge list", fi.where)
-    if edges_name:
+    if edges_name and direct is None:
         builds = astq.list_builds(fi.node, edges_name)
         ok = len(builds) == 1
         if ok:
@@ -144,7 +155,23 @@ def check_topo(prog: Program, res: Result) -> None:
     wrap = norm(rv) if not isinstance(rv, ast.Name) else norm(_single_def(fi, rv.id) or rv)
     res.ob(R, not any(w in wrap for w in ("reversed(", "sorted(", "[::-1]", "set(")), fi.qualname, "order not altered after the traversal",
            "the traversal order is reversed/sorted/de-duplicated before it is returned", fi.where)
-    res.floor(R, 7)
+    if direct is None:
+        res.floor(R, 7)
+
+
+def _attr_build(post, attr: str):
+    """How self.<attr> (a list) is built in __attrs_post_init__: comprehension assigned directly, or a local list filled
+    in a loop and assigned afterwards."""
+    sts = [s_ for s_ in walk_function(post.node) if isinstance(s_, ast.Assign) and norm(s_.targets[0]) == f"self.{attr}"]
+    if len(sts) != 1:
+        return None
+    v = sts[0].value
+    if isinstance(v, ast.ListComp):
+        return astq.ListBuild(attr, v.elt, list(v.generators), [i_ for g_ in v.generators for i_ in g_.ifs], v)
+    if isinstance(v, ast.Name):
+        bs = astq.list_builds(post.node, v.id)
+        return bs[0] if len(bs) == 1 else None
+    return None
 
 
 def check_use(prog: Program, res: Result, rule: str = "C17-use") -> None:
@@ -166,27 +193,44 @@ def check_use(prog: Program, res: Result, rule: str = "C17-use") -> None:
         st = n._parent
         ok = isinstance(st, ast.Assign) and isinstance(st.value, ast.Call) and prog.resolve_call(fi, st.value) == f"{PG}:toposort_edges" \
             and len(st.value.args) == 1 and norm(st.value.args[0]) == "self.edge_types"
+        if not ok and isinstance(st, ast.Assign) and any(q in TRAVERSALS for _, q in prog.calls_in(fi)):
+            # the ordering is computed in place (an absorbed helper) from self.edge_inds: same obligations as C17-topo
+            before = len(res.findings)
+            check_topo(prog, res, fi=fi, R=R, direct="self.edge_inds", result=st.value)
+            ok = len(res.findings) == before
         res.ob(R, ok, fi.qualname, "self.sorted_edge_inds = toposort_edges(self.edge_types)",
                f"sorted_edge_inds is assigned `{short(st.value, 60)}`: not the topological order of the scorer's own edge types",
                f"{fi.module.relpath}:{n.lineno}", sample=short(st, 80))
-    et = [st for st in walk_function(post.node) if isinstance(st, ast.Assign) and norm(st.targets[0]) == "self.edge_types"]
-    ok = len(et) == 1 and isinstance(et[0].value, ast.ListComp) and norm(et[0].value.generators[0].iter) == "self.edge_inds" \
-        and not et[0].value.generators[0].ifs and norm(et[0].value.elt).startswith("EdgeType(")
-    res.ob(R, ok, post.qualname, "edge_types = EdgeType(src, dst) for every (src, dst) in self.edge_inds", "edge_types is not one EdgeType per skeleton edge", post.where)
+    bi, bt = _attr_build(post, "edge_inds"), _attr_build(post, "edge_types")
+    # edge_inds: one (index(src), index(dst)) per skeleton edge, in the order of self.edges
+    ok = bi is not None and len(bi.gens) == 1 and not bi.conds and norm(bi.gens[0].iter) == "self.edges"
+    pair = None
     if ok:
-        tgt = [norm(e) for e in et[0].value.generators[0].target.elts] if isinstance(et[0].value.generators[0].target, ast.Tuple) else []
-        args = [norm(a) for a in et[0].value.elt.args]
-        res.ob(R, tgt == args and len(tgt) == 2, post.qualname, "EdgeType(src, dst) keeps source/destination order",
-               f"EdgeType is built as EdgeType({', '.join(args)}) from ({', '.join(tgt)}): source and destination swapped", post.where)
-    ei = [st for st in walk_function(post.node) if isinstance(st, ast.Assign) and norm(st.targets[0]) == "self.edge_inds"]
-    ok = len(ei) == 1 and isinstance(ei[0].value, ast.ListComp) and norm(ei[0].value.generators[0].iter) == "self.edges" and not ei[0].value.generators[0].ifs
-    if ok:
-        elt = ei[0].value.elt
-        tg = ei[0].value.generators[0].target
+        tg = bi.gens[0].target
+        elt = astq.expand_at(post.node, bi.elt, bi.site if isinstance(bi.site, ast.stmt) else astq_stmt(bi.site), keep=[norm(e) for e in tg.elts] if isinstance(tg, ast.Tuple) else [])
         ok = isinstance(elt, ast.Tuple) and len(elt.elts) == 2 and isinstance(tg, ast.Tuple) and len(tg.elts) == 2 \
             and norm(elt.elts[0]) == f"self.part_names.index({norm(tg.elts[0])})" and norm(elt.elts[1]) == f"self.part_names.index({norm(tg.elts[1])})"
+        pair = elt if ok else None
     res.ob(R, ok, post.qualname, "edge_inds = (part_names.index(src), part_names.index(dst)) for every edge",
            "edge_inds is not the (source index, destination index) of every skeleton edge", post.where)
+    # edge_types: EdgeType(src index, dst index) per edge, in step with edge_inds
+    ok = bt is not None and len(bt.gens) == 1 and not bt.conds and isinstance(bt.elt, ast.Call) and norm(bt.elt.func).split(".")[-1] == "EdgeType" and len(bt.elt.args) == 2
+    if ok:
+        g0 = bt.gens[0]
+        if norm(g0.iter) == "self.edge_inds":
+            tgt = [norm(e) for e in g0.target.elts] if isinstance(g0.target, ast.Tuple) else []
+            args = [norm(a) for a in bt.elt.args]
+            ok2 = tgt == args and len(tgt) == 2
+        else:
+            # built in the same pass as edge_inds: same loop, arguments expand to the pair appended to edge_inds
+            same_loop = bi is not None and bi.gens and g0 is bi.gens[0]
+            tg = g0.target
+            site = bt.site if isinstance(bt.site, ast.stmt) else astq_stmt(bt.site)
+            args = [norm(astq.expand_at(post.node, a, site, keep=[norm(e) for e in tg.elts] if isinstance(tg, ast.Tuple) else [])) for a in bt.elt.args]
+            ok2 = bool(same_loop) and pair is not None and args == [norm(pair.elts[0]), norm(pair.elts[1])]
+        res.ob(R, ok2, post.qualname, "EdgeType(src, dst) keeps source/destination order",
+               f"EdgeType is built as EdgeType({', '.join(args)}): not (source index, destination index) of the same edge", post.where)
+    res.ob(R, ok, post.qualname, "edge_types = EdgeType(src, dst) for every (src, dst) in self.edge_inds", "edge_types is not one EdgeType per skeleton edge", post.where)
     # 2. hand-over chain
     chain = [
         (ci.methods.get("group_instances"), f"{PG}:group_instances_batch",
